@@ -46,6 +46,20 @@ pub fn run(seed: u64, tier: &str, out: &mut dyn FnMut(String)) {
             }
         }
     }
+    // one past a perfect power at sizes where the f32 root estimate loses the "+1" (2^20+1 = 1024^2+1 =
+    // 32^4+1 = 16^5+1 = 4^10+1 = 2^20+1): the edge must still be the smallest one that holds all indices
+    let big_dims: &[usize] = if tier == "thorough" { &[2, 4, 5, 10, 20] } else { &[2, 20] };
+    for nd in big_dims {
+        let nt = 1048577usize;
+        out(observe(nt, *nd, 0, 0.0));
+        out(observe(nt, *nd, nt - 1, 1.0));
+    }
+    if tier == "thorough" {
+        for (nt, nd) in [(5764802usize, 8usize), (6765202, 4), (16777217, 2), (16777216, 2), (1048576, 20), (1048575, 4)] {
+            out(observe(nt, nd, 0, 0.0));
+            out(observe(nt, nd, nt - 1, 1.0));
+        }
+    }
     out(observe(10, 2, 3, f32::NAN));
     out(observe(10, 2, 3, f32::INFINITY));
 }
